@@ -7,6 +7,7 @@ from collections import Counter
 from . import common as C
 from . import proggen as G
 from . import optchecks as O
+from . import scripted as S
 
 SENTINEL = "sentinel line 1\nsecond 🙂 line\nno newline at end".encode("utf-8")
 
@@ -74,6 +75,8 @@ def run(prop, tier, seed):
     quick = tier == "quick"
     n = 220 if quick else 5000
     cases = templates()
+    for _ in range(max(40, n // 3)):
+        cases.append(("scripted", S.scripted(rng, with_read=rng.random() < 0.3)))
     for _ in range(n):
         cmds = G.gen_program(rng)
         # bias: make stacks 0-2 selected often
@@ -87,7 +90,7 @@ def run(prop, tier, seed):
     fails = []
     slowest = 0.0
     for (lv, tag, prog), r in zip(jobs, res):
-        hist[tag if tag == "random" else "template"] += 1
+        hist[tag if tag in ("random", "scripted") else "template"] += 1
         slowest = max(slowest, r[3])
         if len(prog) > 6:
             distinct.add((lv, prog))
